@@ -30,20 +30,20 @@ var rollovers = []int64{1, 7, 8, 9, 40, 100, 200, 400, 1000, 0}
 
 // profile = weights of op kinds plus generator switches.
 type profile struct {
-	name                                                                       string
-	pub, del, delmulti, trim, cmp, compact, gc, clock, sync, reopen            int
-	minOps, maxOps                                                             int
-	forceKeys, forceTimes, forceMono                                           int // percent
-	kv                                                                         bool // few keys, tombstones
-	collide                                                                    bool
-	smallRoll                                                                  int // percent of runs with rollover <= 200
-	rmIdx, tools                                                               int // percent of reopens
-	noIdxLoss                                                                  bool
-	bigVals                                                                    bool
-	tailBias                                                                   bool
-	roReopen                                                                   int // percent of reopens that are read-only sessions
-	every                                                                      int
-	foreign                                                                    int
+	name                                                            string
+	pub, del, delmulti, trim, cmp, compact, gc, clock, sync, reopen int
+	minOps, maxOps                                                  int
+	forceKeys, forceTimes, forceMono                                int  // percent
+	kv                                                              bool // few keys, tombstones
+	collide                                                         bool
+	smallRoll                                                       int // percent of runs with rollover <= 200
+	rmIdx, tools                                                    int // percent of reopens
+	noIdxLoss                                                       bool
+	bigVals                                                         bool
+	tailBias                                                        bool
+	roReopen                                                        int // percent of reopens that are read-only sessions
+	every                                                           int
+	foreign                                                         int
 }
 
 var profiles = map[string]profile{
